@@ -12,6 +12,10 @@ ROOT = os.path.dirname(os.path.dirname(os.path.abspath(__file__)))
 
 def run_scenario(scn, seed=0):
     W = {"cls": {e["id"]: e.get("cls", "free") for e in scn["world"]["population"]}}
+    for op in scn["ops"]:
+        # a module-level call with its own RandState is a stream of its own, over the class of the root object
+        if op["op"] == "call" and op["call"].get("stream"):
+            W["cls"][op["call"]["stream"]] = W["cls"][op["call"]["roots"][0]]
     events = []
     for i, env in enumerate(scn["envs"]):
         e = dict(os.environ)
